@@ -101,9 +101,15 @@ class Program(object):
         return sum(1 for _, items in self.blocks for it in items if it[0] == "ins")
 
 
-def gen_program(arch, rng):
+def gen_program(arch, rng, many_chains=False):
+    """@many_chains: more blocks, most of them ending in a jump/return, so that the program has
+    several fall-through chains (needed for layouts where several floating chains compete for
+    the holes between several pinned chains)"""
     small = arch.name == "msp430"
-    nblocks = rng.randint(2, 5 if small else 8)
+    if many_chains:
+        nblocks = rng.randint(5, 7 if small else 10)
+    else:
+        nblocks = rng.randint(2, 5 if small else 8)
     labels = ["main"] + ["lbl%d" % i for i in range(1, nblocks)]
     blocks = []
     falls = set()
@@ -111,7 +117,7 @@ def gen_program(arch, rng):
         items = []
         last = (bi == nblocks - 1)
         r = rng.random()
-        if r < 0.14 and bi > 0:
+        if r < (0.06 if many_chains else 0.14) and bi > 0:
             # data block
             for _ in range(rng.randint(1, 3)):
                 items.append(gen_data(arch, rng, labels))
@@ -128,6 +134,8 @@ def gen_program(arch, rng):
         kind = None
         if last:
             kind = "jmp" if r < 0.5 else "stop"
+        elif many_chains and rng.random() < 0.6:
+            kind = "jmp" if r < 0.6 else "stop"
         elif r < 0.30:
             kind = None if items else "cond"      # fall through into the next label
         elif r < 0.55:
